@@ -208,7 +208,31 @@ def kernel_lemmas(rep, timeout):
     for k in range(3):
         obs.append(oblig.Ob("semi-infinite kernel == (u x r)/(|r|(|r| - u.r))/4pi [%d]" % k, lhs=ps[0].result[0, k], rhs=ux[k] / den,
                             meta={"family": "semi-infinite vortex kernel equals the textbook limit form"}))
-    run_obligations(rep, "vortex kernel lemmas", obs, timeout, levels=(1, 2), relate=[], family=lambda ob: "kernel: " + ob.meta["family"])
+    def kern_rp(ob, env):
+        """the real kernels on floats against the textbook formulas and their symmetries"""
+        rng = np.random.default_rng(8)
+        bad = []
+        for t in range(4):
+            av, bv = rng.standard_normal(3) + 1.5, rng.standard_normal(3) - 1.0
+            uv = np.array([np.cos(0.1 * t), 0.0, np.sin(0.1 * t)])
+            Kf = np.asarray(em._compute_finite_vortex(av[None, :], bv[None, :]), dtype=float)[0]
+            Kr = np.asarray(em._compute_finite_vortex(bv[None, :], av[None, :]), dtype=float)[0]
+            Mv_ = np.array([1.0, -1.0, 1.0])
+            Km = np.asarray(em._compute_finite_vortex((av * Mv_)[None, :], (bv * Mv_)[None, :]), dtype=float)[0]
+            cxv = np.cross(av, bv)
+            ref = cxv * np.dot(av - bv, av / np.linalg.norm(av) - bv / np.linalg.norm(bv)) / (4 * np.pi * np.dot(cxv, cxv))
+            Ks = np.asarray(em._compute_semi_infinite_vortex(uv[None, :], bv[None, :]), dtype=float)[0]
+            Ksm = np.asarray(em._compute_semi_infinite_vortex((uv * Mv_)[None, :], (bv * Mv_)[None, :]), dtype=float)[0]
+            nr_ = np.linalg.norm(bv)
+            refs = np.cross(uv, bv) / (nr_ * (nr_ - np.dot(uv, bv)) * 4 * np.pi)
+            for lab, e in (("finite kernel vs Katz-Plotkin", np.abs(Kf - ref).max()), ("antisymmetry", np.abs(Kr + Kf).max()),
+                           ("mirror covariance", np.abs(Km - Kf * np.array([-1.0, 1.0, -1.0])).max()), ("semi-infinite kernel vs textbook", np.abs(Ks - refs).max()),
+                           ("semi-infinite mirror covariance", np.abs(Ksm - Ks * np.array([-1.0, 1.0, -1.0])).max())):
+                if e > 1e-12:
+                    bad.append("%s: %.3g" % (lab, e))
+        return bool(bad), "; ".join(sorted(set(bad))[:4]) or "real kernels agree with the textbook forms and symmetries"
+
+    run_obligations(rep, "vortex kernel lemmas", obs, timeout, levels=(1, 2), relate=[], family=lambda ob: "kernel: " + ob.meta["family"], replay=kern_rp)
 
 
 # ------------------------------------------------------------------------------------- main comparison
